@@ -213,8 +213,8 @@ class HSym:
             return False
         if a is None or b is None:
             return a is b
-        if self.cin is not None:
-            return _tolerant_eq(a, b)
+        if self.cin is not None or not _has_sym(a) and not _has_sym(b):
+            return _tolerant_eq(a, b)         # concrete floats (e.g. a softmax of constants): equality up to round-off
         return self._cmp_all('==', a, b)
 
     def ne(self, a, b):
@@ -439,3 +439,11 @@ def _tolerant_eq(a, b):
     if isinstance(a, bool) or isinstance(b, bool) or isinstance(a, str) or isinstance(b, str):
         return a == b
     return math.isclose(a, b, rel_tol=RTOL, abs_tol=ATOL)
+
+
+def _has_sym(v):
+    if isinstance(v, Tensor):
+        return any(is_sym(e) for e in v.els)
+    if isinstance(v, (list, tuple)):
+        return any(_has_sym(x) for x in v)
+    return is_sym(v)
